@@ -61,8 +61,8 @@ def run(ck: Check, prog: Program) -> None:
             a_ = n_.ast
             if isinstance(a_, ast.Assign) and dotted(a_.targets[0]) == 'self._exclude_param':
                 vals_ = [al.expr for al in ifl.alts(n_, a_.value, boolops=True)]
-                bad_ = [v_ for v_ in vals_ if not (isinstance(v_, ast.Name) and v_.id in pnames_ or isinstance(v_, ast.Lambda) or
-                                                   isinstance(v_, ast.Name) and not isinstance(prog.resolve(binit.module, v_), type(None)))]
+                # the given predicate, a lambda, a named function: all "as given / the default"; a CALL produces something else (a wrapper)
+                bad_ = [v_ for v_ in vals_ if isinstance(v_, ast.Call)]
                 ck.ob('EXCL-FORWARD', 'BaseValidator keeps the exclusion predicate as given (or the never-exclude default)', not bad_)
                 for v_ in bad_:
                     ck.finding('EXCL-FORWARD', binit.qualname, f'predicate stored as `{norm(v_)[:50]}`', binit.module.rel, a_.lineno,
